@@ -123,6 +123,11 @@ def c01_candidates(P, uni, sibling_labels=('e', 'a', 'b', 'c')):
     _blk(P, [mk_tx([(OutputReference(enc.txid(cb), 0), K[4])], [(cbv, K[1])])], 'spend-own-reward', out, cb_tx=cb)
     _blk(P, [T0, mk_tx([(OutputReference(enc.txid(T0), 0), K[1])], [(COIN, K[2])])], 'spend-earlier-tx-of-block', out)
     _blk(P, [mk_tx([(OutputReference(enc.txid(T0), 1), K[0])], [(5, K[2])]), T0], 'spend-later-tx-of-block', out)
+    # ---- a block that states its parent's height (reward data matching): with a checkpoint horizon at that height the stated
+    # height would put it below the horizon although it sits above it
+    _blk(P, [mk_tx([(o_ref, K[2])], [(v, K[1])])], 'states-parent-height+signature-by-another-key', out, height=P.height)
+    _blk(P, [mk_tx([(o_ref, K[2])], [(v, K[1])])], 'states-parent-height+max-target+signature-by-another-key', out, height=P.height,
+         target=b'\xff' * 32)
     # ---- repeated references
     _blk(P, [mk_tx([(o_ref, K[0]), (o_ref, K[0])], [(v, K[1])])], 'same-ref-twice-in-tx', out)
     _blk(P, [mk_tx([(o_ref, K[0]), (o_ref, K[0])], [(2 * v, K[1])])], 'same-ref-twice-in-tx-double-value', out)
@@ -286,6 +291,7 @@ def c02_candidates(P, uni):
     _blk(P, [], 'reward-plus-1-nofees', out, cb_outs=[(sub + 1, M)])
     _blk(P, [], 'reward-exact-nofees', out, control=True, cb_outs=[(sub, M)])
     _blk(P, [], 'reward-claims-absent-fee', out, cb_outs=[(sub + fee, M)])
+    _blk(P, [], 'states-parent-height+reward-plus-1', out, cb_outs=[(sub + 1, M)], height=P.height)
     _blk(P, [T0], 'reward-split-3-exact', out, control=True, cb_outs=[(sub, M), (fee - 1, K[1]), (1, K[2])])
     _blk(P, [T0], 'reward-split-3-plus-1', out, cb_outs=[(sub, M), (fee, K[1]), (1, K[2])])
     _blk(P, [T0], 'reward-double', out, cb_outs=[(sub + fee, M), (sub + fee, M)])
